@@ -27,6 +27,28 @@ type Case struct {
 	Build vkit.B `json:"build,omitempty"`
 	// Limit: sem.MaxInputLength for the case: 0 = package default (1024), -1 = disabled, n > 0 = n.
 	Limit int `json:"max_input_length,omitempty"`
+	// Hooks: before the case is judged, custom package-level Formatter and Parser functions are installed, used and removed.
+	Hooks bool `json:"after_custom_hooks,omitempty"`
+}
+
+// pokeWithCustomHooks: the package-level Formatter and Parser are settings; what was produced under one setting must not be
+// handed out under the next.
+func pokeWithCustomHooks(text string) {
+	oldF, oldP := sem.Formatter, sem.Parser
+	defer func() { sem.Formatter, sem.Parser = oldF, oldP }()
+	sem.Formatter = func(buf []byte, v sem.Ver, f sem.Format) ([]byte, error) {
+		return append(buf, fmt.Sprintf("custom<%d,%s>", v.Major, v.Build)...), nil
+	}
+	sem.Parser = func(input []byte, r sem.Rule) (sem.Ver, error) { return sem.Ver{Major: 666, PreRelease: "hook"}, nil }
+	v, _ := sem.DefaultParser(text, 0)
+	_, _ = v.String(), v.StringTag()
+	_ = fmt.Sprintf("%s %v %t", v, v, v)
+	_, _ = v.MarshalText()
+	var u sem.Ver
+	_ = u.UnmarshalText([]byte(text))
+	_, _ = sem.Parse(text)
+	_, _ = sem.ParseTag(text)
+	_, _ = sem.Compare(text, text)
 }
 
 func setLimit(l int) func() {
@@ -291,6 +313,13 @@ func judge(c Case, w *vkit.W) (accepted bool) {
 			w.Fail(c, "panic", vkit.PanicDetail(p))
 		}
 	}()
+	if c.Hooks {
+		if c.Kind == "text" {
+			pokeWithCustomHooks(string(c.Text))
+		} else {
+			pokeWithCustomHooks(sem.Ver{Major: c.Major, Minor: c.Minor, Patch: c.Patch, PreRelease: string(c.Pre), Build: string(c.Build)}.String())
+		}
+	}
 	switch c.Kind {
 	case "text":
 		return judgeText(c, w)
@@ -335,6 +364,35 @@ func TestCheck(t *testing.T) {
 		judge(c, w)
 		w.Eval(true)
 		return nil
+	})
+
+	r.Phase(fmt.Sprintf("W: %d conventional special texts (null, nil, latest, HEAD, v, ...) x limits through every entry point", len(ref.ConventionalTexts)), func() {
+		for _, lim := range []int{0, -1, 5} {
+			restore := setLimit(lim)
+			r.Serial(func(w *vkit.W) {
+				for _, text := range ref.ConventionalTexts {
+					judge(Case{Kind: "text", Text: vkit.B(text), Limit: lim}, w)
+					w.EvalRandom(vkit.Hash64("W", text, strconv.Itoa(lim)), true)
+				}
+			})
+			restore()
+		}
+	})
+
+	r.Phase("W2: every entry point again right after custom package-level Formatter/Parser functions were installed, used and removed", func() {
+		r.Serial(func(w *vkit.W) {
+			for _, text := range []string{"1.2.3", "v1.2.3", "0.0.0", "v0.0.0-0", "1.2.3-rc.1+build.5", "v10.20.30-alpha.beta+exp.sha.5114f85", "18446744073709551615.0.0", "1.0.0+21AF26D3----117B344092BD", "1.2", "v1.2.3-01", "1.2.3-", "", "x"} {
+				for i := 0; i < 3; i++ {
+					judge(Case{Kind: "text", Text: vkit.B(text), Hooks: true}, w)
+					w.EvalRandom(vkit.Hash64("W2", text, strconv.Itoa(i)), true)
+				}
+			}
+			for _, v := range []Case{{Kind: "ver", Major: 1, Pre: "rc.1", Build: "b"}, {Kind: "ver", Major: 1, Pre: "01"}, {Kind: "ver", Patch: 7, Build: "é"}, {Kind: "ver"}} {
+				v.Hooks = true
+				judge(v, w)
+				w.EvalRandom(vkit.Hash64("W2v", string(v.Pre), string(v.Build)), true)
+			}
+		})
 	})
 
 	L := r.Pick(7, 9)
